@@ -1513,7 +1513,12 @@ class Executor:
         for i, response in enumerate(self._pending_epr_responses):
 
             if response.type == ReturnType.ERR:
+                # An error is reported once: take it out of the pending responses first,
+                # also when the handler raises
+                self._pending_epr_responses.pop(i)
+                handled = True
                 self._handle_epr_err_response(response)  # type: ignore
+                break
             else:
                 self._logger.debug(
                     f"Try to handle EPR OK ({response.type}) response from network stack"
